@@ -47,7 +47,7 @@ manifest = {
     "setup_cmd": "./setup.sh",
     "hooks": {
         "guard": "verif",
-        "enable": "no committed hooks: checks that need scheduling or map-order control instrument a scratch copy of /repo's working tree at run time (bin/instrument) and build it with -tags verifinstr",
+        "enable": "no committed hooks: every check copies /repo's working tree to a scratch directory, instruments the copy (bin/instrument: a yield call before every statement of package cose, every range-over-map loop routed through the simulator) and builds the worker against it with -tags verifinstr; the copy is deleted afterwards",
         "baseline_off_cmd": "cd /repo && go test -vet=off -count=1 -timeout 25m ./...",
         "source_commits": [],
         "add_only": True,
@@ -56,7 +56,7 @@ manifest = {
         "name": "cosesim",
         "path": "/verif/sim",
         "serves_properties": sorted(CLAIMED),
-        "kind_free_text": "deterministic simulator: one tape decides generated operations, faults, entropy, map order and task scheduling; seeded search over runs; tape minimisation; replay in a fresh process",
+        "kind_free_text": "deterministic simulator: one tape decides generated operations, faults, entropy, go-cose's map iteration order and task scheduling; seeded search over runs in 16 worker processes; tape minimisation; replay in a fresh process (single run, or run history for violations that need process-wide state); race-detector phase for C18",
     }],
     "checks": checks,
     "not_applicable": na,
